@@ -51,6 +51,26 @@ def module_write_rule(repo, eff):
     return out
 
 
+def plane_copy_rules(chk, repo, clause):
+    """Plane.copy is deep, and fit_tilt(inplace=False) hands back such a copy on every path: what a plane multiplies by is
+    then independent of what is done to its copies (C10-f; the phasor of C07 reads the same arrays)"""
+    fc = repo.func('plane.Plane.copy')
+    _, paths, _ = analyse(repo, fc)
+    rets = returns(paths)
+    deep = bool(rets) and all(isinstance(p.ret, Poly) and p.ret.single_atom() is not None and
+                              is_app(p.ret.single_atom(), 'deepcopy') and p.ret.single_atom()[2][0] == S('self')
+                              for p in rets)
+    chk.ob(clause, 'E-ownership', fc.key, 'deep copy', deep,
+           'returns copy.deepcopy(self)' if deep else f'returns {", ".join(fmt(p.ret) for p in rets)} (arrays shared with the original)',
+           fc.loc())
+    ff = repo.func('plane.Plane.fit_tilt')
+    _, fpaths, _ = analyse(repo, ff, config={'inplace': FALSE})
+    alias = [p for p in returns(fpaths) if root_sym(p.ret) == 'self' and not (isinstance(p.ret, Poly) and p.ret.single_atom() is not None
+                                                                               and is_app(p.ret.single_atom(), 'call:plane.Plane.copy'))]
+    chk.ob(clause, 'E-ownership', ff.key, 'inplace=False returns a copy on every path (also when there is nothing to fit)', not alias,
+           '; '.join(f'returns {fmt(p.ret)[:40]} when {conds_str(p)[-100:]}' for p in alias[:2]) or 'every path returns self.copy()', ff.loc())
+
+
 def run(chk, repo, tier):
     chk.clause('C10-a', 'no public function writes a caller-owned array/object outside the documented in-place list', 100)
     chk.clause('C10-b', 'memoised coordinate vectors are never written nor returned', 1)
@@ -146,21 +166,7 @@ def run(chk, repo, tier):
 
     # ---------------------------------------------------------------- C10-f
     common.mul_concat(chk, repo, 'C10-f')
-    fc = repo.func('plane.Plane.copy')
-    _, paths, _ = analyse(repo, fc)
-    rets = returns(paths)
-    deep = bool(rets) and all(isinstance(p.ret, Poly) and p.ret.single_atom() is not None and
-                              is_app(p.ret.single_atom(), 'deepcopy') and p.ret.single_atom()[2][0] == S('self')
-                              for p in rets)
-    chk.ob('C10-f', 'E-ownership', fc.key, 'deep copy', deep,
-           'returns copy.deepcopy(self)' if deep else f'returns {", ".join(fmt(p.ret) for p in rets)} (arrays shared with the original)',
-           fc.loc())
-    ff = repo.func('plane.Plane.fit_tilt')
-    _, fpaths, _ = analyse(repo, ff, config={'inplace': FALSE})
-    alias = [p for p in returns(fpaths) if root_sym(p.ret) == 'self' and not (isinstance(p.ret, Poly) and p.ret.single_atom() is not None
-                                                                               and is_app(p.ret.single_atom(), 'call:plane.Plane.copy'))]
-    chk.ob('C10-f', 'E-ownership', ff.key, 'inplace=False returns a copy on every path (also when there is nothing to fit)', not alias,
-           '; '.join(f'returns {fmt(p.ret)[:40]} when {conds_str(p)[-100:]}' for p in alias[:2]) or 'every path returns self.copy()', ff.loc())
+    plane_copy_rules(chk, repo, 'C10-f')
     for key, cfg in (('plane.Plane.fit_tilt', {'inplace': FALSE}), ('plane.Plane.rescale', None),
                      ('plane.Plane.resample', None)):
         f = repo.func(key)
